@@ -8,15 +8,6 @@ import Babylon.GC.LemmasEpoch
 namespace Babylon.GC
 open Babylon.Core Babylon.Gen.GC
 
-/-- where stop markers can be in the ticket sequence -/
-structure SInv (s : State) : Prop where
-  noMark : s.stop = .idle → Item.marker ∉ s.allItems ∧ s.pushAtStop = none
-  atStop : s.stop ≠ .idle → ∃ p, s.pushAtStop = some p ∧ p ≤ s.pushIdx
-  mark : ∀ km, s.allItems[km]? = some .marker → ∃ p, s.pushAtStop = some p ∧ p ≤ km
-
-theorem SInv.init : SInv State.init := by
-  constructor <;> simp [State.init, State.allItems]
-
 theorem getElem?_append_singleton_ne {α : Type} {l : List α} {x y : α} {k : Nat} (hxy : x ≠ y)
     (h : (l ++ [x])[k]? = some y) : l[k]? = some y := by
   rcases Nat.lt_or_ge k l.length with hl | hl
@@ -27,7 +18,105 @@ theorem getElem?_append_singleton_ne {α : Type} {l : List α} {x y : α} {k : N
     · obtain ⟨m, hm⟩ := Nat.exists_eq_succ_of_ne_zero (Nat.pos_iff_ne_zero.mp h0)
       rw [hm] at h; simp at h
 
-theorem SInv.step {c : Cfg} {s s' : State} {l : Lbl} (hq : QInv c s) (hs : SInv s) (h : step c s l = some s') : SInv s' := by
+theorem getElem?_append_singleton {α : Type} (l : List α) (x : α) (k : Nat) :
+    (l ++ [x])[k]? = if k < l.length then l[k]? else if k = l.length then some x else none := by
+  split
+  · rename_i h; exact List.getElem?_append_left h
+  · rename_i h
+    rw [List.getElem?_append_right (by omega)]
+    split
+    · rename_i h2; subst h2; simp
+    · rename_i h2
+      have : k - l.length ≠ 0 := by omega
+      obtain ⟨m, hm⟩ := Nat.exists_eq_succ_of_ne_zero this
+      rw [hm]; simp
+
+theorem marker_cell_in_allItems {c : Cfg} {s : State} (hq : QInv c s) {k : Nat} (hk : s.stop = .publish k) :
+    s.popIdx ≤ k ∧ s.allItems[k]? = some Item.marker := by
+  have ⟨h1, h2⟩ := hq.spub k hk
+  refine ⟨h1, ?_⟩
+  simp only [State.allItems]
+  rw [List.getElem?_append_right (by rw [hq.popLen]; exact h1), hq.popLen, List.getElem?_map, h2]
+  rfl
+
+/-- a marker in a cell is a marker in the ticket sequence at or after the pop index -/
+theorem cell_marker_index {c : Cfg} {s : State} (hq : QInv c s) {b : Bool} (h : (Item.marker, b) ∈ s.cells) :
+    ∃ j : Nat, s.popIdx ≤ j ∧ s.allItems[j]? = some Item.marker := by
+  obtain ⟨i, hi⟩ := List.getElem?_of_mem h
+  refine ⟨s.popIdx + i, Nat.le_add_right _ _, ?_⟩
+  simp only [State.allItems]
+  rw [List.getElem?_append_right (by rw [hq.popLen]; omega), hq.popLen, List.getElem?_map]
+  have : s.popIdx + i - s.popIdx = i := by omega
+  rw [this, hi]; rfl
+
+theorem allItems_marker_cell {c : Cfg} {s : State} (hq : QInv c s) {j : Nat} (hj : s.popIdx ≤ j)
+    (h : s.allItems[j]? = some Item.marker) : ∃ b, (Item.marker, b) ∈ s.cells := by
+  simp only [State.allItems] at h
+  rw [List.getElem?_append_right (by rw [hq.popLen]; exact hj), List.getElem?_map] at h
+  cases hc : s.cells[j - s.popped.length]? with
+  | none => rw [hc] at h; cases h
+  | some cl =>
+    rw [hc] at h
+    obtain ⟨x, b⟩ := cl
+    simp at h; subst h
+    exact ⟨b, List.mem_of_getElem? hc⟩
+
+/-- where the stop marker of the current collector run can be, and in which phases of `stop()` -/
+structure SInv (s : State) : Prop where
+  atStop : s.stop ≠ .idle → ∃ p, s.pushAtStop = some p ∧ p ≤ s.pushIdx
+  /-- while a `stop()` is in progress the collector thread is joinable -/
+  offStop : (s.stop = .reserve ∨ (∃ k, s.stop = .publish k) ∨ s.stop = .join) → s.cpc ≠ .off
+  /-- no marker since the current run began, unless a `stop()` has queued one -/
+  nm : (s.stop = .idle ∨ s.stop = .reserve ∨ (s.stop = .returned ∧ s.cpc ≠ .off)) →
+    ∀ j : Nat, s.runBase ≤ j → s.allItems[j]? ≠ some .marker
+  markRun : ∀ j : Nat, s.runBase ≤ j → s.allItems[j]? = some .marker → ∃ p, s.pushAtStop = some p ∧ p ≤ j
+  oneRun : ∀ i j : Nat, s.runBase ≤ i → s.runBase ≤ j →
+    s.allItems[i]? = some .marker → s.allItems[j]? = some .marker → i = j
+  cellMark : (∃ b, (Item.marker, b) ∈ s.cells) → (∃ k, s.stop = .publish k) ∨ s.stop = .join
+  joinMark : s.stop = .join → ∃ k : Nat, s.runBase ≤ k ∧ s.allItems[k]? = some .marker
+
+theorem SInv.init : SInv State.init := by
+  constructor <;> simp [State.init, State.allItems]
+
+/-- an action that touches neither `stop()`'s variables nor the ticket sequence nor whether a collector exists -/
+theorem SInv.frame {s s' : State} (hs : SInv s) (h1 : s'.stop = s.stop) (h2 : s'.pushAtStop = s.pushAtStop)
+    (h3 : s'.pushIdx = s.pushIdx) (h4 : s'.popped = s.popped) (h5 : s'.cells = s.cells)
+    (h6 : s'.runBase = s.runBase) (h7 : s'.cpc = .off ↔ s.cpc = .off) : SInv s' := by
+  have ha : s'.allItems = s.allItems := by simp [State.allItems, h4, h5]
+  refine ⟨?_, ?_, ?_, ?_, ?_, ?_, ?_⟩
+  · rw [h1, h2, h3]; exact hs.atStop
+  · rw [h1]; intro h hoff; exact hs.offStop h (h7.mp hoff)
+  · rw [h1, h6, ha]
+    intro h
+    apply hs.nm
+    rcases h with h | h | ⟨h, hc⟩
+    · exact Or.inl h
+    · exact Or.inr (Or.inl h)
+    · exact Or.inr (Or.inr ⟨h, fun ho => hc (h7.mpr ho)⟩)
+  · rw [h2, h6, ha]; exact hs.markRun
+  · rw [h6, ha]; exact hs.oneRun
+  · rw [h1, h5]; exact hs.cellMark
+  · rw [h1, h6, ha]; exact hs.joinMark
+
+theorem SInv.popCells {c : Cfg} {s : State} (hq : QInv c s) (hs : SInv s) (n : Nat) (pc : CPc)
+    (h1 : s.cpc ≠ .off) (h2 : pc ≠ .off) : SInv { popCells s n with cpc := pc } := by
+  refine ⟨hs.atStop, fun _ => h2, ?_, ?_, ?_, ?_, ?_⟩
+  · intro h
+    rw [popCells_allItems']
+    apply hs.nm
+    rcases h with h | h | ⟨h, _⟩
+    · exact Or.inl h
+    · exact Or.inr (Or.inl h)
+    · exact Or.inr (Or.inr ⟨h, h1⟩)
+  · rw [popCells_allItems']; exact hs.markRun
+  · rw [popCells_allItems']; exact hs.oneRun
+  · rintro ⟨b, hb⟩
+    exact hs.cellMark ⟨b, List.mem_of_mem_drop hb⟩
+  · rw [popCells_allItems']; exact hs.joinMark
+
+theorem SInv.step {c : Cfg} {s s' : State} {l : Lbl} (hq : QInv c s) (hk : KInv s) (hs : SInv s)
+    (h : step c s l = some s') : SInv s' := by
+  have hlen := allItems_length hq
   cases l with
   | reserve id =>
     simp only [GC.step, stepWith] at h
@@ -39,64 +128,70 @@ theorem SInv.step {c : Cfg} {s s' : State} {l : Lbl} (hq : QInv c s) (hs : SInv 
       intro km hkm
       simp only [List.map_append, List.map_cons, List.map_nil, ← List.append_assoc] at hkm
       exact getElem?_append_singleton_ne (by simp) hkm
-    refine ⟨?_, ?_, ?_⟩
-    · intro hi
-      have ⟨h1, h2⟩ := hs.noMark hi
-      refine ⟨?_, h2⟩
-      show Item.marker ∉ s.popped ++ (s.cells ++ [(Item.task ⟨id, e0⟩, false)]).map (·.1)
-      intro hm
-      apply h1
-      simp only [State.allItems, List.map_append, List.mem_append, List.map_cons, List.map_nil, List.mem_singleton] at hm ⊢
-      rcases hm with hm | hm | hm
-      · exact Or.inl hm
-      · exact Or.inr hm
-      · cases hm
+    refine ⟨?_, hs.offStop, ?_, ?_, ?_, ?_, ?_⟩
     · intro hi
       obtain ⟨p, hp1, hp2⟩ := hs.atStop hi
       exact ⟨p, hp1, by dsimp only; omega⟩
-    · intro km hkm
-      exact hs.mark km (hall km hkm)
+    · intro hst j hj hm
+      exact hs.nm hst j hj (hall j hm)
+    · intro j hj hm
+      exact hs.markRun j hj (hall j hm)
+    · intro i j hi hj hmi hmj
+      exact hs.oneRun i j hi hj (hall i hmi) (hall j hmj)
+    · rintro ⟨b, hb⟩
+      dsimp only at hb
+      rw [List.mem_append] at hb
+      rcases hb with hb | hb
+      · exact hs.cellMark ⟨b, hb⟩
+      · simp at hb
+    · intro hj
+      obtain ⟨k, hk1, hk2⟩ := hs.joinMark hj
+      refine ⟨k, hk1, ?_⟩
+      have hlt : k < s.allItems.length := by
+        rcases Nat.lt_or_ge k s.allItems.length with h | h
+        · exact h
+        · rw [List.getElem?_eq_none h] at hk2; cases hk2
+      show (s.popped ++ (s.cells ++ [(Item.task ⟨id, e0⟩, false)]).map (·.1))[k]? = _
+      simp only [List.map_append, List.map_cons, List.map_nil, ← List.append_assoc]
+      show (s.allItems ++ _)[k]? = _
+      rw [List.getElem?_append_left hlt]; exact hk2
   | stopReserve =>
     simp only [GC.step, stepWith] at h
     split at h <;> try contradiction
     rename_i hres
     injection h with h; subst h
-    have hlen := allItems_length hq
     obtain ⟨p, hp1, hp2⟩ := hs.atStop (by rw [hres]; simp)
-    refine ⟨by simp, ?_, ?_⟩
-    · intro _; exact ⟨p, hp1, by dsimp only; omega⟩
-    · intro km hkm
-      change (s.popped ++ (s.cells ++ [(Item.marker, false)]).map (·.1))[km]? = some Item.marker at hkm
+    have hnm := hs.nm (Or.inr (Or.inl hres))
+    have hall : ∀ km : Nat, (s.popped ++ (s.cells ++ [(Item.marker, false)]).map (·.1))[km]? = some Item.marker →
+        s.allItems[km]? = some Item.marker ∨ km = s.pushIdx := by
+      intro km hkm
       simp only [List.map_append, List.map_cons, List.map_nil, ← List.append_assoc] at hkm
+      change (s.allItems ++ [Item.marker])[km]? = _ at hkm
       rcases Nat.lt_or_ge km s.allItems.length with hl | hl
-      · have : s.allItems[km]? = some Item.marker := by
-          rw [← hkm]; exact (List.getElem?_append_left hl).symm
-        exact hs.mark km this
+      · left; rwa [List.getElem?_append_left hl] at hkm
+      · right
+        rw [List.getElem?_append_right hl] at hkm
+        rcases Nat.eq_zero_or_pos (km - s.allItems.length) with h0 | h0
+        · omega
+        · obtain ⟨m, hm⟩ := Nat.exists_eq_succ_of_ne_zero (Nat.pos_iff_ne_zero.mp h0)
+          rw [hm] at hkm; simp at hkm
+    refine ⟨?_, ?_, ?_, ?_, ?_, ?_, ?_⟩
+    · intro _; exact ⟨p, hp1, by dsimp only; omega⟩
+    · intro _; exact hs.offStop (Or.inl hres)
+    · intro hst
+      rcases hst with hst | hst | ⟨hst, _⟩ <;> cases hst
+    · intro j hj hm
+      rcases hall j hm with h | h
+      · exact absurd h (hnm j hj)
       · exact ⟨p, hp1, by omega⟩
-  | callStop =>
-    simp only [GC.step, stepWith] at h
-    split at h <;> try contradiction
-    rename_i hidle
-    injection h with h; subst h
-    have ⟨h1, h2⟩ := hs.noMark hidle
-    refine ⟨by simp, fun _ => ⟨s.pushIdx, rfl, Nat.le_refl _⟩, ?_⟩
-    intro km hkm
-    exact absurd (List.mem_of_getElem? hkm) h1
-  | publish id =>
-    simp only [GC.step, stepWith] at h
-    split at h <;> try contradiction
-    rename_i e0 k0 hpub
-    split at h <;> try contradiction
-    injection h with h; subst h
-    have e : s.popped ++ (setPublished s.cells (k0 - s.popIdx)).map (·.1) = s.allItems := by
-      simp [State.allItems, map_fst_setPublished]
-    refine ⟨?_, hs.atStop, ?_⟩
-    · intro hi
-      show Item.marker ∉ s.popped ++ (setPublished s.cells (k0 - s.popIdx)).map (·.1) ∧ _
-      rw [e]; exact hs.noMark hi
-    · intro km
-      show (s.popped ++ (setPublished s.cells (k0 - s.popIdx)).map (·.1))[km]? = _ → _
-      rw [e]; exact hs.mark km
+    · intro i j hi hj hmi hmj
+      rcases hall i hmi with h1 | h1
+      · exact absurd h1 (hnm i hi)
+      · rcases hall j hmj with h2 | h2
+        · exact absurd h2 (hnm j hj)
+        · omega
+    · intro _; exact Or.inl ⟨_, rfl⟩
+    · intro hj; cases hj
   | stopPublish =>
     simp only [GC.step, stepWith] at h
     split at h <;> try contradiction
@@ -105,35 +200,181 @@ theorem SInv.step {c : Cfg} {s s' : State} {l : Lbl} (hq : QInv c s) (hs : SInv 
     injection h with h; subst h
     have e : s.popped ++ (setPublished s.cells (k0 - s.popIdx)).map (·.1) = s.allItems := by
       simp [State.allItems, map_fst_setPublished]
-    refine ⟨by simp, ?_, ?_⟩
+    have ⟨hk1, hk2⟩ := marker_cell_in_allItems hq hpub
+    refine ⟨?_, ?_, ?_, ?_, ?_, ?_, ?_⟩
     · intro _; exact hs.atStop (by rw [hpub]; simp)
-    · intro km
-      show (s.popped ++ (setPublished s.cells (k0 - s.popIdx)).map (·.1))[km]? = _ → _
-      rw [e]; exact hs.mark km
+    · intro _; exact hs.offStop (Or.inr (Or.inl ⟨_, hpub⟩))
+    · intro hst
+      rcases hst with hst | hst | ⟨hst, _⟩ <;> cases hst
+    · intro j
+      show _ → (s.popped ++ (setPublished s.cells (k0 - s.popIdx)).map (·.1))[j]? = _ → _
+      rw [e]; exact hs.markRun j
+    · intro i j
+      show _ → _ → (s.popped ++ (setPublished s.cells (k0 - s.popIdx)).map (·.1))[i]? = _ →
+        (s.popped ++ (setPublished s.cells (k0 - s.popIdx)).map (·.1))[j]? = _ → _
+      rw [e]; exact hs.oneRun i j
+    · intro _; exact Or.inr rfl
+    · intro _
+      refine ⟨k0, ?_, ?_⟩
+      · have := hk.base; have := hq.popLen; dsimp only; omega
+      · show (s.popped ++ (setPublished s.cells (k0 - s.popIdx)).map (·.1))[k0]? = _
+        rw [e]; exact hk2
   | stopJoin =>
     simp only [GC.step, stepWith] at h
     split at h <;> try contradiction
     rename_i hg
     injection h with h; subst h
-    exact ⟨by simp, fun _ => hs.atStop (by rw [hg.1]; simp), hs.mark⟩
+    refine ⟨?_, ?_, ?_, hs.markRun, hs.oneRun, ?_, ?_⟩
+    · intro _; exact hs.atStop (by rw [hg.1]; simp)
+    · intro hst
+      rcases hst with hst | ⟨k, hst⟩ | hst <;> cases hst
+    · intro hst
+      rcases hst with hst | hst | ⟨_, hc⟩
+      · cases hst
+      · cases hst
+      · exact absurd rfl hc
+    · -- the run's marker has been popped and it is the only one: none is left in the cells
+      rintro ⟨b, hb⟩
+      exfalso
+      obtain ⟨j, hj1, hj2⟩ := cell_marker_index hq hb
+      have hrun := (hk.fin hg.2).1
+      have hmark : Item.marker ∈ s.popped.drop s.runBase := by
+        apply Classical.byContradiction
+        intro hn
+        have := hk.run.mpr hn
+        rw [hrun] at this; cases this
+      obtain ⟨i, hi⟩ := List.getElem?_of_mem hmark
+      rw [List.getElem?_drop] at hi
+      have hil : s.runBase + i < s.popped.length := by
+        rcases Nat.lt_or_ge (s.runBase + i) s.popped.length with h | h
+        · exact h
+        · rw [List.getElem?_eq_none h] at hi; cases hi
+      have hi2 : s.allItems[s.runBase + i]? = some Item.marker := by
+        simp only [State.allItems]; rw [List.getElem?_append_left hil]; exact hi
+      have := hs.oneRun (s.runBase + i) j (Nat.le_add_right _ _) (by have := hk.base; have := hq.popLen; omega) hi2 hj2
+      have := hq.popLen
+      omega
+    · intro hj; cases hj
+  | callStop =>
+    simp only [GC.step, stepWith] at h
+    split at h <;> try contradiction
+    rename_i hg
+    injection h with h; subst h
+    have hnm : ∀ j : Nat, s.runBase ≤ j → s.allItems[j]? ≠ some Item.marker := by
+      apply hs.nm
+      rcases hg.1 with h | h
+      · exact Or.inl h
+      · exact Or.inr (Or.inr ⟨h, hg.2⟩)
+    refine ⟨fun _ => ⟨s.pushIdx, rfl, Nat.le_refl _⟩, fun _ => hg.2, fun _ => hnm, ?_, hs.oneRun, ?_, ?_⟩
+    · intro j hj hm; exact absurd hm (hnm j hj)
+    · intro hb
+      rcases hs.cellMark hb with ⟨k, hk'⟩ | hk' <;> rcases hg.1 with h | h <;> rw [h] at hk' <;> cases hk'
+    · intro hj; cases hj
+  | start =>
+    simp only [GC.step, stepWith] at h
+    split at h
+    · rename_i hoff
+      injection h with h; subst h
+      -- with no collector thread there is no marker in the queue
+      have hnone : ∀ j : Nat, s.popped.length ≤ j → s.allItems[j]? ≠ some Item.marker := by
+        intro j hj hm
+        obtain ⟨b, hb⟩ := allItems_marker_cell hq (by rw [← hq.popLen]; exact hj) hm
+        exact hs.offStop (by
+          rcases hs.cellMark ⟨b, hb⟩ with h | h
+          · exact Or.inr (Or.inl h)
+          · exact Or.inr (Or.inr h)) hoff
+      refine ⟨hs.atStop, fun _ => by simp, fun _ => hnone, ?_, ?_, hs.cellMark, ?_⟩
+      · intro j hj hm; exact absurd hm (hnone j hj)
+      · intro i j hi _ hmi _; exact absurd hmi (hnone i hi)
+      · intro hj; exact absurd hoff (hs.offStop (Or.inr (Or.inr hj)))
+    · injection h with h; subst h; exact hs
+  | publish id =>
+    simp only [GC.step, stepWith] at h
+    split at h <;> try contradiction
+    rename_i e0 k0 hpub
+    split at h <;> try contradiction
+    injection h with h; subst h
+    have e : s.popped ++ (setPublished s.cells (k0 - s.popIdx)).map (·.1) = s.allItems := by
+      simp [State.allItems, map_fst_setPublished]
+    refine ⟨hs.atStop, hs.offStop, ?_, ?_, ?_, ?_, ?_⟩
+    · intro hst j
+      show _ → (s.popped ++ (setPublished s.cells (k0 - s.popIdx)).map (·.1))[j]? ≠ _
+      rw [e]; exact hs.nm hst j
+    · intro j
+      show _ → (s.popped ++ (setPublished s.cells (k0 - s.popIdx)).map (·.1))[j]? = _ → _
+      rw [e]; exact hs.markRun j
+    · intro i j
+      show _ → _ → (s.popped ++ (setPublished s.cells (k0 - s.popIdx)).map (·.1))[i]? = _ →
+        (s.popped ++ (setPublished s.cells (k0 - s.popIdx)).map (·.1))[j]? = _ → _
+      rw [e]; exact hs.oneRun i j
+    · rintro ⟨b, hb⟩
+      obtain ⟨b', hb'⟩ := mem_setPublished hb
+      exact hs.cellMark ⟨b', hb'⟩
+    · intro hj
+      show ∃ k : Nat, _ ∧ (s.popped ++ (setPublished s.cells (k0 - s.popIdx)).map (·.1))[k]? = _
+      rw [e]; exact hs.joinMark hj
   | pop n =>
     simp only [GC.step, stepWith] at h
     split at h <;> try contradiction
-    · split at h <;> try contradiction
+    · rename_i hpc
+      split at h <;> try contradiction
       injection h with h; subst h
-      refine ⟨?_, hs.atStop, ?_⟩
-      · intro hi; rw [popCells_allItems']; exact hs.noMark hi
-      · intro km; rw [popCells_allItems']; exact hs.mark km
-    · split at h <;> try contradiction
+      apply hs.popCells hq
+      · rw [hpc]; simp
+      · split <;> simp
+    · rename_i lim hpc
+      split at h <;> try contradiction
       injection h with h; subst h
-      refine ⟨?_, hs.atStop, ?_⟩
-      · intro hi; rw [popCells_allItems']; exact hs.noMark hi
-      · intro km; rw [popCells_allItems']; exact hs.mark km
+      apply hs.popCells hq
+      · rw [hpc]; simp
+      · simp
+  | consumeBegin =>
+    simp only [GC.step, stepWith] at h
+    split at h <;> try contradiction
+    rename_i hg
+    injection h with h; subst h
+    exact hs.frame rfl rfl rfl rfl rfl rfl (by simp [hg.1])
+  | scanBegin =>
+    simp only [GC.step, stepWith] at h
+    split at h <;> try contradiction
+    rename_i hg
+    injection h with h; subst h
+    refine hs.frame rfl rfl rfl rfl rfl rfl ?_
+    rcases hg with hg | hg
+    · simp [hg]
+    · simp [hg.1]
+  | scanEnd m =>
+    simp only [GC.step, stepWith] at h
+    split at h <;> try contradiction
+    rename_i hg
+    injection h with h; subst h
+    exact hs.frame rfl rfl rfl rfl rfl rfl (by simp [hg.1])
+  | reclaim id =>
+    simp only [GC.step, stepWith] at h
+    split at h <;> try contradiction
+    rename_i m cnt hpc
+    split at h <;> try contradiction
+    split at h <;> try contradiction
+    injection h with h; subst h
+    exact hs.frame rfl rfl rfl rfl rfl rfl (by simp [hpc])
+  | passEnd =>
+    simp only [GC.step, stepWith] at h
+    split at h <;> try contradiction
+    rename_i m cnt hpc
+    split at h <;> try contradiction
+    injection h with h; subst h
+    exact hs.frame rfl rfl rfl rfl rfl rfl (by simp [hpc])
+  | exit =>
+    simp only [GC.step, stepWith] at h
+    split at h <;> try contradiction
+    rename_i hg
+    injection h with h; subst h
+    exact hs.frame rfl rfl rfl rfl rfl rfl (by simp [hg.1])
   | _ =>
     simp only [GC.step, stepWith] at h <;> (repeat' split at h) <;>
     first
     | contradiction
-    | (injection h with h; subst h; exact ⟨hs.noMark, hs.atStop, hs.mark⟩)
+    | (injection h with h; subst h; exact hs.frame rfl rfl rfl rfl rfl rfl Iff.rfl)
 
 /-- all invariants, for every reachable state -/
 structure AllInv (c : Cfg) (s : State) : Prop where
@@ -146,7 +387,7 @@ structure AllInv (c : Cfg) (s : State) : Prop where
 theorem reach_inv {c : Cfg} {s : State} (h : Reach c s) : AllInv c s := by
   refine Reach.inv (c := c) (AllInv c) ⟨QInv.init c, CInv.init, KInv.init, EInv.init, SInv.init⟩ ?_ s h
   intro s s' l _ hi hs
-  exact ⟨hi.q.step hs, hi.cns.step hs, hi.k.step hs, hi.e.step hs, hi.st.step hi.q hs⟩
+  exact ⟨hi.q.step hs, hi.cns.step hs, hi.k.step hs, hi.e.step hs, hi.st.step hi.q hi.k hs⟩
 
 /-! ### consequences used by the property theorems -/
 
@@ -202,46 +443,279 @@ theorem invoked_nodup {c : Cfg} {s : State} (h : Reach c s) : s.invoked.Nodup :=
   simp only [List.append_assoc] at this
   exact (List.nodup_append.mp this).1
 
-/-- when stop() has returned, every task whose ticket precedes every marker ticket was invoked -/
-theorem all_before_marker {c : Cfg} {s : State} (h : Reach c s) (hret : s.stop = .returned)
-    {id e k : Nat} (hcall : s.calls id = .publish e k ∨ s.calls id = .done e k)
-    (hbefore : ∀ km : Nat, s.allItems[km]? = some Item.marker → k < km) : id ∈ s.invoked := by
+/-! ### what a returned `stop()` guarantees, over any number of start / stop cycles -/
+
+theorem absorb_dropped {t : Task} {l : List Item} (h : t ∈ (absorb l).2.1) :
+    ∃ i j : Nat, i < j ∧ l[i]? = some Item.marker ∧ l[j]? = some (Item.task t) := by
+  induction l with
+  | nil => simp [absorb] at h
+  | cons x xs ih =>
+    cases x with
+    | marker =>
+      simp only [absorb] at h
+      obtain ⟨j, hj⟩ := List.getElem?_of_mem (mem_tasksOf.mp h)
+      exact ⟨0, j + 1, by omega, by simp, by simpa using hj⟩
+    | task t' =>
+      simp only [absorb] at h
+      obtain ⟨i, j, hij, hi, hj⟩ := ih h
+      exact ⟨i + 1, j + 1, by omega, by simpa using hi, by simpa using hj⟩
+
+/-- tasks queued behind a marker, and tasks skipped behind a marker, took their ticket while a
+`stop()` was in progress -/
+structure LInv (s : State) : Prop where
+  lateCells : ∀ (i j : Nat) t b b', i < j → s.cells[i]? = some (Item.marker, b) →
+    s.cells[j]? = some (Item.task t, b') → t.id ∈ s.late
+  dropLate : ∀ t ∈ s.dropped, t.id ∈ s.late
+
+theorem LInv.init : LInv State.init := by
+  constructor <;> simp [State.init]
+
+theorem getElem?_setPublished_fst {cells : List (Item × Bool)} {i j : Nat} {x : Item} {b : Bool}
+    (h : (setPublished cells i)[j]? = some (x, b)) : ∃ b0, cells[j]? = some (x, b0) := by
+  rw [getElem?_setPublished] at h
+  cases hc : cells[j]? with
+  | none => rw [hc] at h; cases h
+  | some cl =>
+    rw [hc] at h
+    simp only [Option.map_some, Option.some.injEq] at h
+    obtain ⟨y, b1⟩ := cl
+    split at h
+    · injection h with h1 h2; subst h1; exact ⟨b1, rfl⟩
+    · injection h with h1 h2; subst h1; exact ⟨b1, rfl⟩
+
+theorem LInv.step {c : Cfg} {s s' : State} {l : Lbl} (hst : SInv s) (hl : LInv s)
+    (h : step c s l = some s') : LInv s' := by
+  cases l with
+  | reserve id =>
+    simp only [GC.step, stepWith] at h
+    split at h <;> try contradiction
+    rename_i e0 hres
+    injection h with h; subst h
+    have hsub : ∀ x, x ∈ s.late → x ∈ (match s.stop with
+        | .publish _ => id :: s.late | .join => id :: s.late | _ => s.late) := by
+      intro x hx; split <;> simp [hx]
+    refine ⟨?_, fun t ht => hsub _ (hl.dropLate t ht)⟩
+    intro i j t b b' hij hi hj
+    dsimp only at hi hj ⊢
+    rw [getElem?_append_singleton] at hi hj
+    split at hi
+    · rename_i hil
+      split at hj
+      · exact hsub _ (hl.lateCells i j t b b' hij hi hj)
+      · split at hj
+        · -- the new task sits behind a queued marker: a stop() is in progress
+          injection hj with hj; injection hj with hj _; injection hj with hj; subst hj
+          have := hst.cellMark ⟨b, List.mem_of_getElem? hi⟩
+          rcases this with ⟨k, hk⟩ | hk <;> rw [hk] <;> simp
+        · cases hj
+    · split at hi
+      · injection hi with hi; injection hi with hi _; cases hi
+      · cases hi
+  | stopReserve =>
+    simp only [GC.step, stepWith] at h
+    split at h <;> try contradiction
+    injection h with h; subst h
+    refine ⟨?_, hl.dropLate⟩
+    intro i j t b b' hij hi hj
+    dsimp only at hi hj ⊢
+    rw [getElem?_append_singleton] at hi hj
+    split at hj
+    · rename_i hjl
+      rw [if_pos (by omega)] at hi
+      exact hl.lateCells i j t b b' hij hi hj
+    · split at hj
+      · injection hj with hj; injection hj with hj _; cases hj
+      · cases hj
+  | publish id =>
+    simp only [GC.step, stepWith] at h
+    split at h <;> try contradiction
+    split at h <;> try contradiction
+    injection h with h; subst h
+    refine ⟨?_, hl.dropLate⟩
+    intro i j t b b' hij hi hj
+    obtain ⟨b0, hi0⟩ := getElem?_setPublished_fst hi
+    obtain ⟨b1, hj0⟩ := getElem?_setPublished_fst hj
+    exact hl.lateCells i j t b0 b1 hij hi0 hj0
+  | stopPublish =>
+    simp only [GC.step, stepWith] at h
+    split at h <;> try contradiction
+    split at h <;> try contradiction
+    injection h with h; subst h
+    refine ⟨?_, hl.dropLate⟩
+    intro i j t b b' hij hi hj
+    obtain ⟨b0, hi0⟩ := getElem?_setPublished_fst hi
+    obtain ⟨b1, hj0⟩ := getElem?_setPublished_fst hj
+    exact hl.lateCells i j t b0 b1 hij hi0 hj0
+  | pop n =>
+    have key : ∀ pc, LInv { popCells s n with cpc := pc } := by
+      intro pc
+      refine ⟨?_, ?_⟩
+      · intro i j t b b' hij hi hj
+        simp only [GC.popCells, List.getElem?_drop] at hi hj
+        exact hl.lateCells (n + i) (n + j) t b b' (by omega) hi hj
+      · intro t ht
+        simp only [GC.popCells, List.mem_append] at ht
+        rcases ht with ht | ht
+        · exact hl.dropLate t ht
+        · obtain ⟨i, j, hij, hi, hj⟩ := absorb_dropped ht
+          rw [List.getElem?_map] at hi hj
+          cases hci : (s.cells.take n)[i]? with
+          | none => rw [hci] at hi; cases hi
+          | some ci =>
+            cases hcj : (s.cells.take n)[j]? with
+            | none => rw [hcj] at hj; cases hj
+            | some cj =>
+              rw [hci] at hi; rw [hcj] at hj
+              obtain ⟨xi, bi⟩ := ci
+              obtain ⟨xj, bj⟩ := cj
+              simp at hi hj; subst hi; subst hj
+              rw [List.getElem?_take] at hci hcj
+              split at hci <;> try contradiction
+              split at hcj <;> try contradiction
+              exact hl.lateCells i j t bi bj hij hci hcj
+    simp only [GC.step, stepWith] at h
+    split at h <;> try contradiction
+    · split at h <;> try contradiction
+      injection h with h; subst h; exact key _
+    · split at h <;> try contradiction
+      injection h with h; subst h; exact key _
+  | _ =>
+    simp only [GC.step, stepWith] at h <;> (repeat' split at h) <;>
+    first
+    | contradiction
+    | (injection h with h; subst h; exact ⟨hl.lateCells, hl.dropLate⟩)
+
+theorem reach_linv {c : Cfg} {s : State} (h : Reach c s) : LInv s := by
+  refine Reach.inv (c := c) LInv LInv.init ?_ s h
+  intro s s' l hr hi hs
+  exact hi.step (reach_inv hr).st hs
+
+/-- the invocation log and the skipped list only grow -/
+theorem step_log_dropped_ext {c : Cfg} {s s' : State} {l : Lbl} (h : step c s l = some s') :
+    (∃ e1, s'.log = s.log ++ e1) ∧ (∃ e2, s'.dropped = s.dropped ++ e2) := by
+  cases l with
+  | pop n =>
+    simp only [GC.step, stepWith] at h
+    split at h <;> try contradiction
+    · split at h <;> try contradiction
+      injection h with h; subst h; exact ⟨⟨[], by simp [popCells]⟩, ⟨_, rfl⟩⟩
+    · split at h <;> try contradiction
+      injection h with h; subst h; exact ⟨⟨[], by simp [popCells]⟩, ⟨_, rfl⟩⟩
+  | reclaim id =>
+    simp only [GC.step, stepWith] at h
+    split at h <;> try contradiction
+    split at h <;> try contradiction
+    split at h <;> try contradiction
+    injection h with h; subst h
+    exact ⟨⟨_, rfl⟩, ⟨[], by simp⟩⟩
+  | _ =>
+    simp only [GC.step, stepWith] at h <;> (repeat' split at h) <;>
+    first
+    | contradiction
+    | (injection h with h; subst h; exact ⟨⟨[], by simp⟩, ⟨[], by simp⟩⟩)
+
+/-- `stop` becomes `returned` only by a join; otherwise it already was, with the same recorded push index -/
+theorem step_returned {c : Cfg} {s s' : State} {l : Lbl} (h : step c s l = some s') (hr : s'.stop = .returned) :
+    l = .stopJoin ∨ (s.stop = .returned ∧ s'.pushAtStop = s.pushAtStop) := by
+  cases l with
+  | stopJoin => exact Or.inl rfl
+  | pop n =>
+    simp only [GC.step, stepWith] at h
+    split at h <;> try contradiction
+    · split at h <;> try contradiction
+      injection h with h; subst h; exact Or.inr ⟨hr, rfl⟩
+    · split at h <;> try contradiction
+      injection h with h; subst h; exact Or.inr ⟨hr, rfl⟩
+  | _ =>
+    simp only [GC.step, stepWith] at h <;> (repeat' split at h) <;>
+    first
+    | contradiction
+    | (injection h with h; subst h; first | exact Or.inr ⟨hr, rfl⟩ | cases hr)
+
+/-- **the guarantee of a returned `stop()`**, stable under everything that happens afterwards
+(including the next `start()`): every task whose ticket is below the push index recorded when that
+`stop()` was called has been invoked, or was skipped behind a marker -/
+def RProp (s : State) : Prop :=
+  s.stop = .returned → ∀ p, s.pushAtStop = some p → ∀ (k : Nat) (t : Task), k < p →
+    s.allItems[k]? = some (Item.task t) → t.id ∈ s.invoked ∨ t ∈ s.dropped
+
+theorem RProp.step {c : Cfg} {s s' : State} {l : Lbl} (hr : Reach c s) (hp : RProp s)
+    (h : step c s l = some s') : RProp s' := by
+  have hi := reach_inv hr
+  intro hret p hpp k t hkp hkt
+  rcases step_returned h hret with hl | ⟨hold, hpsame⟩
+  · -- the join: everything below `p` has been popped, and everything popped was consumed or skipped
+    subst hl
+    simp only [GC.step, stepWith] at h
+    split at h <;> try contradiction
+    rename_i hg
+    injection h with h; subst h
+    have ⟨hrun, hdrop⟩ := hi.k.fin hg.2
+    have hmark : Item.marker ∈ s.popped.drop s.runBase := by
+      apply Classical.byContradiction
+      intro hn
+      have := hi.k.run.mpr hn
+      rw [hrun] at this; cases this
+    obtain ⟨i, hi1⟩ := List.getElem?_of_mem hmark
+    rw [List.getElem?_drop] at hi1
+    have hil : s.runBase + i < s.popped.length := by
+      rcases Nat.lt_or_ge (s.runBase + i) s.popped.length with h | h
+      · exact h
+      · rw [List.getElem?_eq_none h] at hi1; cases hi1
+    have hi2 : s.allItems[s.runBase + i]? = some Item.marker := by
+      simp only [State.allItems]; rw [List.getElem?_append_left hil]; exact hi1
+    obtain ⟨p', hp', hple⟩ := hi.st.markRun _ (Nat.le_add_right _ _) hi2
+    have : p' = p := by
+      have : s.pushAtStop = some p := hpp
+      rw [this] at hp'; injection hp' with hp'; exact hp'.symm
+    subst this
+    have hkpop : s.popped[k]? = some (Item.task t) := by
+      have hkt' : s.allItems[k]? = some (Item.task t) := hkt
+      simp only [State.allItems] at hkt'
+      rwa [List.getElem?_append_left (by omega)] at hkt'
+    have hmem : t ∈ s.consumed ++ s.dropped :=
+      hi.k.perm.subset (mem_tasksOf.mpr (List.mem_of_getElem? hkpop))
+    rw [List.mem_append] at hmem
+    rcases hmem with hc | hd
+    · left
+      have hcons : s.log.map Inv.task = s.consumed := by
+        have := hi.k.split; rw [hdrop] at this; simpa using this
+      rw [← hcons, List.mem_map] at hc
+      obtain ⟨x, hx, hxe⟩ := hc
+      show t.id ∈ s.invoked
+      simp only [State.invoked, List.mem_map]
+      exact ⟨x, hx, by rw [← hxe]; rfl⟩
+    · exact Or.inr hd
+  · -- nothing relevant changes: the ticket sequence, the log and the skipped list only grow
+    rw [hpsame] at hpp
+    obtain ⟨ext, hext⟩ := step_allItems h
+    obtain ⟨⟨e1, he1⟩, ⟨e2, he2⟩⟩ := step_log_dropped_ext h
+    obtain ⟨p0, hp0, hple⟩ := hi.st.atStop (by rw [hold]; simp)
+    have : p0 = p := by rw [hpp] at hp0; injection hp0 with hp0; exact hp0.symm
+    subst this
+    have hlen := allItems_length hi.q
+    have hkt0 : s.allItems[k]? = some (Item.task t) := by
+      rw [hext, List.getElem?_append_left (by omega)] at hkt; exact hkt
+    rcases hp hold p0 hpp k t hkp hkt0 with h1 | h1
+    · left
+      simp only [State.invoked, he1, List.map_append, List.mem_append]
+      exact Or.inl h1
+    · right; rw [he2]; exact List.mem_append_left _ h1
+
+theorem reach_rprop {c : Cfg} {s : State} (h : Reach c s) : RProp s := by
+  refine Reach.inv (c := c) RProp (by intro h; cases h) ?_ s h
+  intro s s' l hr hi hs
+  exact hi.step hr hs
+
+/-- when `stop()` has returned, every reclaimer whose `retire` took its ticket before that `stop()`
+was called — and not while an earlier `stop()` was in progress — has been invoked -/
+theorem all_before_stop {c : Cfg} {s : State} (h : Reach c s) (hret : s.stop = .returned)
+    {id e k p : Nat} (hcall : s.calls id = .publish e k ∨ s.calls id = .done e k)
+    (hp : s.pushAtStop = some p) (hk : k < p) (hlate : id ∉ s.late) : id ∈ s.invoked := by
   have hi := reach_inv h
-  have hdone := hi.k.ret hret
-  have ⟨hrun, hdrop⟩ := hi.k.fin hdone
-  have hcons : s.log.map Inv.task = s.consumed := by
-    have := hi.k.split; rw [hdrop] at this; simpa using this
-  have hmark : Item.marker ∈ s.popped := by
-    apply Classical.byContradiction
-    intro hn
-    have := hi.k.run.mpr hn
-    rw [hrun] at this; cases this
-  have hk := hi.q.tick id e k hcall
-  -- position of the first marker
-  have hj := getElem?_firstMarker hmark
-  have hjlt : (s.popped.takeWhile notMarker).length < s.popped.length := by
-    rcases Nat.lt_or_ge (s.popped.takeWhile notMarker).length s.popped.length with hl | hl
-    · exact hl
-    · rw [List.getElem?_eq_none hl] at hj; cases hj
-  have hkj : k < (s.popped.takeWhile notMarker).length := by
-    apply hbefore
-    simp only [State.allItems]
-    rw [List.getElem?_append_left hjlt]; exact hj
-  have hkp : s.popped[k]? = some (Item.task ⟨id, e⟩) := by
-    simp only [State.allItems] at hk
-    rwa [List.getElem?_append_left (by omega)] at hk
-  have hmem : Item.task ⟨id, e⟩ ∈ s.popped.takeWhile notMarker := by
-    apply List.mem_of_getElem? (i := k)
-    rw [getElem?_takeWhile_notMarker hkj]; exact hkp
-  have hcm : (⟨id, e⟩ : Task) ∈ s.consumed := by
-    have := mem_tasksOf.mpr hmem
-    exact hi.k.pre.subset this
-  rw [← hcons] at hcm
-  rw [List.mem_map] at hcm
-  obtain ⟨x, hx, hxe⟩ := hcm
-  simp only [State.invoked, List.mem_map]
-  refine ⟨x, hx, ?_⟩
-  have : x.task.id = id := by rw [hxe]
-  simpa [Inv.task] using this
+  have hkt := hi.q.tick id e k hcall
+  rcases reach_rprop h hret p hp k ⟨id, e⟩ hk hkt with h1 | h1
+  · exact h1
+  · exact absurd ((reach_linv h).dropLate _ h1) hlate
 
 end Babylon.GC
